@@ -15,7 +15,7 @@ def jit_ground(ctx):
     import props_sweep
 
     rng = random.Random(ctx["seed"] + 606)
-    per_alg = 250 if ctx["tier"] == "quick" else 4000
+    per_alg = 250 * (nv.boost("engine") if any(f.startswith("propagators/") for f in nv.changed_files()) else 1) if ctx["tier"] == "quick" else 4000
     cases = []
     for alg in gen.ALGS:
         pts = []
